@@ -51,7 +51,7 @@ SPEC = {
 }
 
 META = {
-    "engine": "lib-rapid",
+    "engine": "lib-rapid", "also": ["bb-server"],
     "technique": "property-based testing against a brute-force oracle (rapid generators, ladder of sub-campaigns of growing condition expressiveness)",
     "text": ("Generated sorted key records and InfluxQL conditions are pushed through the primary-key sparse index (Build, NewKeyCondition, Scan) and the skip-index readers; "
              "every fragment that holds a row definitely satisfying the condition must be inside the returned fragment ranges (a superset is accepted). "
